@@ -619,6 +619,7 @@ type xstore struct {
 	gcHung bool
 	origin string
 	autoSaveOff bool // Store.AutoSaveIndex was set to false on the current store
+	nameIDs     map[string]int
 	// store-level model (Model/GraphStore.v): operations and observations
 	sops, stoks, lastSweep []string
 }
@@ -963,6 +964,18 @@ func (e *xstore) closure(roots []int) map[int]bool {
 		rec(r)
 	}
 	return in
+}
+
+// nameID numbers the tag names of a case for the model.
+func (e *xstore) nameID(nm string) int {
+	if e.nameIDs == nil {
+		e.nameIDs = map[string]int{}
+	}
+	if id, ok := e.nameIDs[nm]; ok {
+		return id
+	}
+	e.nameIDs[nm] = len(e.nameIDs)
+	return e.nameIDs[nm]
 }
 
 func (e *xstore) hasName(i int) bool {
@@ -1315,12 +1328,8 @@ func (e *xstore) do(op string) {
 					continue
 				}
 				if err == nil {
-					prev, had := e.tags[nm]
 					e.tags[nm] = i
-					if had && prev != i && !e.hasName(prev) {
-						e.sops = append(e.sops, fmt.Sprintf("U%d", prev))
-					}
-					e.sops = append(e.sops, fmt.Sprintf("T%d", i))
+					e.sops = append(e.sops, fmt.Sprintf("N%d=%d", i, e.nameID(nm)))
 				} else if e.stored[i] {
 					e.fail("tag-error", fmt.Sprintf("concurrent Tag(%d,%s): %v", i, nm, err))
 				}
@@ -1337,10 +1346,9 @@ func (e *xstore) do(op string) {
 				}
 				if had && err == nil {
 					delete(e.tags, nm)
-					if !e.hasName(i) {
-						e.sops = append(e.sops, fmt.Sprintf("U%d", i))
-					}
+					e.sops = append(e.sops, fmt.Sprintf("M%d", e.nameID(nm)))
 				}
+				_ = i
 			default:
 				i, cerr := strconv.Atoi(it)
 				if cerr != nil || !e.valid(i) || e.u.g.Nodes[i].Foreign() {
@@ -1372,12 +1380,10 @@ func (e *xstore) do(op string) {
 			return
 		}
 		if err := e.ociSt.Tag(ctx, e.u.g.Nodes[i].Desc, nm); err == nil {
-			prev, had := e.tags[nm]
 			e.tags[nm] = i
-			if had && prev != i && !e.hasName(prev) {
-				e.sops = append(e.sops, fmt.Sprintf("U%d", prev)) // the name moved away from prev
-			}
-			e.sops = append(e.sops, fmt.Sprintf("T%d", i))
+			// the model keeps the reference -> node map itself (a name that moves is taken from
+			// the node that had it)
+			e.sops = append(e.sops, fmt.Sprintf("N%d=%d", i, e.nameID(nm)))
 		} else if e.stored[i] {
 			e.fail("tag-error", fmt.Sprintf("Tag(%d,%s): %v", i, nm, err))
 		}
@@ -1392,10 +1398,9 @@ func (e *xstore) do(op string) {
 		}
 		if had && err == nil {
 			delete(e.tags, arg)
-			if !e.hasName(i) {
-				e.sops = append(e.sops, fmt.Sprintf("U%d", i))
-			}
+			e.sops = append(e.sops, fmt.Sprintf("M%d", e.nameID(arg)))
 		}
+		_ = i
 	case "delete":
 		i, _ := strconv.Atoi(arg)
 		if e.ociSt == nil || !e.valid(i) {
